@@ -29,6 +29,7 @@ PROPS = {
         "units": [
             {"name": "c01.valid", "pkg": BPV7, "test": "TestVerifC01Valid", "shards_t": 16},
             {"name": "c01.mutants", "pkg": BPV7, "test": "TestVerifC01Mutants", "shards_t": 16},
+            {"name": "c01.inner-eids", "pkg": BPV7, "test": "TestVerifC01InnerEIDs"},
             {"name": "c01.fuzz", "pkg": BPV7, "kind": "fuzz", "fuzz": "FuzzVerifC01", "seconds": 240, "tiers": ["thorough"]},
         ],
     },
